@@ -924,6 +924,48 @@ def r10_5b(prog, chk):
     chk.floor("R10.5b", n, 8)
 
 
+# per-item reset functions: (class, reset function): every pointer member that the class re-points to one of its own members
+# while it processes an item is re-pointed by the reset that starts the next item
+PER_ITEM_RESET = [("KrigingSystem", "KrigingSystem::_resetMemoryFullPerNeigh")]
+
+
+def r10_5c(prog, chk):
+    """R10.5c - 'mode' pointers.  KrigingSystem switches _lhs / _rhs between the full and the compressed arrays while it processes a
+    neighbourhood; the reset that starts the next neighbourhood must re-point EVERY such pointer, else the next target is computed
+    with the array of the previous one."""
+    n = 0
+    for K, reset_name in PER_ITEM_RESET:
+        reset = prog.fn(reset_name)
+
+        def addr_assigns(f):
+            out = {}
+            for x in f.walk():
+                if x["k"] == "Assign" and x.get("op") == "=" and len(x.get("c") or []) == 2:
+                    l, r = x["c"]
+                    while r is not None and r["k"] == "Cast":
+                        r = r["c"][0]
+                    if l is not None and l["k"] == "MemberExpr" and l.get("mk") == "field" and r is not None and r["k"] == "UnOp" and r.get("op") == "&" and \
+                            r["c"][0] is not None and r["c"][0]["k"] == "MemberExpr" and r["c"][0].get("mk") == "field":
+                        out.setdefault(l["n"], []).append((r["c"][0]["n"], x))
+            return out
+        switched = {}
+        for f in prog.funcs:
+            if f.cls == K and f.body is not None and f.kind == "method":
+                for p, lst in addr_assigns(f).items():
+                    for tgt, x in lst:
+                        switched.setdefault(p, set()).add(tgt)
+        mode_ptrs = sorted(p for p, tg in switched.items() if len(tg) >= 2)
+        here = addr_assigns(reset)
+        chk.analysed(reset)
+        for p in mode_ptrs:
+            n += 1
+            ok = p in here
+            chk.ob("R10.5c", "%s re-points %s (switched between %s while an item is processed)" % (reset_name, p, " / ".join(sorted(switched[p]))), reset.loc(), ok,
+                   detail=None if ok else "%s keeps pointing to the array selected for the previous neighbourhood: the next target is solved with a stale array" % p,
+                   key="R10.5c|%s|%s" % (reset_name, p))
+    chk.floor("R10.5c", n, 2)
+
+
 def r10_4b(prog, chk):
     """R10.4b - function-local static memos.  A block that refreshes function-local statics under a guard (`if (first ||
     key != key_mem) { coeff = f(inputs); key_mem = key; }`) makes the next call reuse the statics: every parameter the refreshed
@@ -1287,6 +1329,7 @@ def main(tier):
     r10_5(prog, chk)
     r10_6(prog, chk)
     r10_5b(prog, chk)
+    r10_5c(prog, chk)
     r10_4b(prog, chk)
     r10_8(prog, chk)
     r10_9(prog, chk)
